@@ -749,16 +749,25 @@ public:
   void backward_apply(arith_operation_t op, const variable_t &x,
                       const variable_t &y, const variable_t &z,
                       const value_partitioning_domain_t &invariant) override {
-    CRAB_WARN(domain_name(), " does not implement backward operations");
+    // No inverse operations are implemented: x can be anything before
+    // the assignment.
+    this->operator-=(x);
+    *this = *this & invariant;
   }
   void backward_apply(arith_operation_t op, const variable_t &x,
                       const variable_t &y, number_t k,
                       const value_partitioning_domain_t &invariant) override {
-    CRAB_WARN(domain_name(), " does not implement backward operations");
+    // No inverse operations are implemented: x can be anything before
+    // the assignment.
+    this->operator-=(x);
+    *this = *this & invariant;
   }
   void backward_assign(const variable_t &x, const linear_expression_t &e,
                        const value_partitioning_domain_t &invariant) override {
-    CRAB_WARN(domain_name(), " does not implement backward operations");
+    // No inverse operations are implemented: x can be anything before
+    // the assignment.
+    this->operator-=(x);
+    *this = *this & invariant;
   }
 
   DEFAULT_SELECT(value_partitioning_domain_t)
@@ -1878,16 +1887,25 @@ public:
   void backward_apply(arith_operation_t op, const variable_t &x,
                       const variable_t &y, const variable_t &z,
                       const this_type &invariant) override {
-    CRAB_WARN(domain_name(), " does not implement backward operations");
+    // No inverse operations are implemented: x can be anything before
+    // the assignment.
+    this->operator-=(x);
+    *this = *this & invariant;
   }
   void backward_apply(arith_operation_t op, const variable_t &x,
                       const variable_t &y, number_t k,
                       const this_type &invariant) override {
-    CRAB_WARN(domain_name(), " does not implement backward operations");
+    // No inverse operations are implemented: x can be anything before
+    // the assignment.
+    this->operator-=(x);
+    *this = *this & invariant;
   }
   void backward_assign(const variable_t &x, const linear_expression_t &e,
                        const this_type &invariant) override {
-    CRAB_WARN(domain_name(), " does not implement backward operations");
+    // No inverse operations are implemented: x can be anything before
+    // the assignment.
+    this->operator-=(x);
+    *this = *this & invariant;
   }
 
   DEFAULT_SELECT(this_type)
